@@ -629,3 +629,19 @@ Proof.
   rewrite (find_pointwise ev0 "t" sig_cond sig_state sig_trace eq_refl sig_cond_pure 10 0); [|cbn; lia|cbn; lia].
   f_equal.
 Qed.
+
+(** * for conditions of the read-only fragment purity is a theorem (ReadOnly.ro_pure): only success remains a premise *)
+From WalModel.proofs Require Import ReadOnly.
+
+Theorem find_pointwise_ro lf f tid c st0 t0 :
+  tr_tid t0 = tid -> tr_virt t0 = [] -> is_ro c = true ->
+  (forall j, 0 <= j <= tr_max t0 -> exists v st', eval lf f c (at_idx tid st0 t0 j) = Ok v st') ->
+  forall fuel i, 0 <= i <= tr_max t0 -> (Z.to_nat (tr_max t0 - i) < fuel)%nat ->
+  op_find fuel (eval lf f) [c] (at_idx tid st0 t0 i) =
+  Ok (PL (map VInt (filter (truth_at (eval lf f) tid c st0 t0) (zrange_nat i (S (Z.to_nat (tr_max t0 - i))))))) (at_idx tid st0 t0 i).
+Proof.
+  intros Htid Hv Hro Hok. apply (find_pointwise (eval lf f) tid c st0 t0 Htid).
+  intros j Hj. destruct (Hok j Hj) as (v & st' & E). exists v. rewrite E. f_equal.
+  apply (ro_pure lf f c Hro _ _ _) in E; [exact E|].
+  intros k t [H|[]]. injection H as _ <-. exact Hv.
+Qed.
